@@ -12,6 +12,10 @@ use vfcommon::{catch, conclude, fan_out, span_range, Args, Caught, Collector, Ou
 
 type Entries = Vec<(String, String)>;
 
+/// set when the module runs as a part of C03: only the span rule is judged (every leaf about an item
+/// of the list, other than a bare literal's, carries a span inside that item)
+static SPANS_ONLY: std::sync::atomic::AtomicBool = std::sync::atomic::AtomicBool::new(false);
+
 trait Canon {
     fn canon(&self) -> String;
 }
@@ -335,7 +339,11 @@ fn judge_input(insts: &[Inst], inp: &Input, c: &mut Collector) {
                 continue;
             }
         };
+        let spans_only = SPANS_ONLY.load(std::sync::atomic::Ordering::Relaxed);
         let mut fail = |class: &str, what: String| {
+            if spans_only {
+                return;
+            }
             c.violation(
                 format!("C14:{}:{class}", if inst.ordered { "BTreeMap" } else { "HashMap" }),
                 what.clone(),
@@ -363,6 +371,7 @@ fn judge_input(insts: &[Inst], inp: &Input, c: &mut Collector) {
                     // attribute every spanned leaf to the item containing it
                     let mut got = vec![0usize; inp.items.len()];
                     let mut unattributed = 0;
+                    let mut unattributed_heads: Vec<String> = vec![];
                     for (d, sp) in &obs.leaves {
                         match sp.and_then(|(lo, hi)| inp.items.iter().position(|it| lo >= it.lo && hi <= it.hi)) {
                             Some(i) => {
@@ -379,7 +388,10 @@ fn judge_input(insts: &[Inst], inp: &Input, c: &mut Collector) {
                                     }
                                 }
                             }
-                            None => unattributed += 1,
+                            None => {
+                                unattributed += 1;
+                                unattributed_heads.push(d.split_whitespace().take(3).collect::<Vec<_>>().join("_").replace('`', ""));
+                            }
                         }
                     }
                     // leaves without a span of their own (or carrying only the whole list's span)
@@ -391,6 +403,16 @@ fn judge_input(insts: &[Inst], inp: &Input, c: &mut Collector) {
                     }
                     if unattributed > 0 {
                         c.count("leaves.unattributed_by_span");
+                    }
+                    for h in unattributed_heads {
+                        c.count(&format!("unattributed.{h}"));
+                        if spans_only && h != "Unexpected_meta-item_format" {
+                            c.violation(
+                                format!("C03:map:span-missing:{h}"),
+                                format!("{} on `{}`: a leaf `{h}..` about an item of the list has no span inside any item; leaves {:?}", inst.name, inp.src, obs.leaves),
+                                json!({"input": inp.src, "map": inst.name, "observed_leaves": obs.leaves}),
+                            );
+                        }
                     }
                 }
             }
@@ -435,6 +457,9 @@ fn judge_input(insts: &[Inst], inp: &Input, c: &mut Collector) {
 
 pub fn run(args: &Args) -> i32 {
     let started = Instant::now();
+    if args.extra.get("part").map(|s| s.as_str()) == Some("map-spans") {
+        SPANS_ONLY.store(true, std::sync::atomic::Ordering::Relaxed);
+    }
     let insts = instantiations();
     if let Some(p) = &args.replay {
         let v: serde_json::Value = serde_json::from_str(&std::fs::read_to_string(p).unwrap_or_default()).unwrap_or_default();
@@ -499,7 +524,7 @@ pub fn run(args: &Args) -> i32 {
 fn outcome(min: u64) -> Outcome {
     Outcome {
         level: "exploration",
-        rule: "random item lists (0..12 items, key alphabets of 1..4 names with ::-leading / multi-segment / raw spellings, literal items, 14 value forms) parsed from source text and converted by all 25 map instantiations (HashMap x {String, Ident, Path} keys, BTreeMap x {String, Ident} keys, values bool / u8 / String / Expr / nested map); success, entries, leaf count and per-item leaf attribution (by span) are compared with a model whose key conversion is re-implemented and whose value acceptance is V::from_meta on the same item; Hash/BTree agreement checked per input. Distinct = (instantiation, length bucket, #literals, #repeats, #bad keys, #bad values, outcome).".into(),
+        rule: if SPANS_ONLY.load(std::sync::atomic::Ordering::Relaxed) { "C03 part: the same item lists and 25 map instantiations as C14; judged here: every error leaf about an item of the list (repeated key, unconvertible key, unconvertible value) carries an explicit span inside that very item; only the leaf for a bare literal item may carry none of its own (it gets the list item's). Distinct = as in C14.".to_string() } else { "random item lists (0..12 items, key alphabets of 1..4 names with ::-leading / multi-segment / raw spellings, literal items, 14 value forms) parsed from source text and converted by all 25 map instantiations (HashMap x {String, Ident, Path} keys, BTreeMap x {String, Ident} keys, values bool / u8 / String / Expr / nested map); success, entries, leaf count and per-item leaf attribution (by span) are compared with a model whose key conversion is re-implemented and whose value acceptance is V::from_meta on the same item; Hash/BTree agreement checked per input. Distinct = (instantiation, length bucket, #literals, #repeats, #bad keys, #bad values, outcome).".to_string() },
         assumptions: vec!["V::from_meta on the same item is the reference for value acceptance (the scalar conversions themselves are C11/C13's subject)".into()],
         min_nontrivial: min,
         exhaustive: None,
